@@ -184,11 +184,13 @@ def FieldKeys.update (fk : FieldKeys) (ks : List Nat) : FieldKeys :=
 
 /-! ## values -/
 
-inductive Tag | struct | opt | vec | kvec
+inductive Tag | struct | opt | vec | kvec | atom
 deriving DecidableEq, Repr
 
 /-- the store's value: a struct (`node struct fields`), `Option` (`node opt []` / `node opt [x]`),
-`Vec` (`node vec items`), keyed `Vec` (`node kvec items`, key = first field of the item) or a leaf -/
+`Vec` (`node vec items`), keyed `Vec` (`node kvec items`, key = first field of the item), a leaf, or a struct
+behind a smart pointer that its parent patches as a whole (`node atom fields`: `Box<Leaf>` with
+`#[patch(|this, new| *this = new)]`, read through `DerefedField`, which adds no path segment) -/
 inductive Val
   | leaf (n : Nat)
   | node (tag : Tag) (xs : List Val)
@@ -232,9 +234,33 @@ def Val.keyOf : Val → Nat
 def Val.keys (v : Val) : List Nat := v.items.map Val.keyOf
 
 mutual
+def Val.beq : Val → Val → Bool
+  | .leaf a, .leaf b => a == b
+  | .node t xs, .node u ys => t == u && Val.beqList xs ys
+  | _, _ => false
+def Val.beqList : List Val → List Val → Bool
+  | [], [] => true
+  | x :: xs, y :: ys => Val.beq x y && Val.beqList xs ys
+  | _, _ => false
+end
+
+/-- `DerefedField`: the field behind the smart pointer is an ordinary struct for whoever holds it directly -/
+def Val.untop : Val → Val
+  | .node .atom xs => .node .struct xs
+  | v => v
+
+def Val.retop (old : Val) (v : Val) : Val :=
+  match old, v with
+  | .node .atom _, .node _ xs => .node .atom xs
+  | _, v => v
+
+mutual
 /-- `PatchField::patch_field(&mut old, new, path, notify)`: new value and the paths passed to `notify`, in order -/
 def patchVal : Val → Val → Path → Val × List Path
   | .leaf a, .leaf b, p => if a = b then (.leaf a, []) else (.leaf b, [p])
+  | .node .atom xs, .node _ ys, p =>
+    -- the derived `if new.field != self.field { closure; notify(path) }`
+    if Val.beqList xs ys then (.node .atom xs, []) else (.node .atom ys, [p])
   | .node t xs, .node _ ys, p =>
     if xs.isEmpty && ys.isEmpty then (.node t xs, [])
     else if ys.isEmpty then (.node t [], [p])
@@ -272,9 +298,17 @@ inductive Seen
   | panic     -- `reader()` panicked (stale index out of bounds)
 deriving Repr
 
+/-- how a reader reads its field -/
+inductive RKind
+  | plain   -- `.get()` / `.read()` / `.with(..)` / `.track()` + `read_untracked()` on the accessor (also through `Field` / `ArcField`)
+  | omap    -- `OptionStoreExt::map` / `invert` on the `Option` field on the way, then `.get()` on the rest of the chain
+  | iterK   -- `for item in keyed_field { item.get() }` (`KeyedSubfield::into_iter`)
+  | iterU   -- `for item in field.iter_unkeyed() { item.get() }` (`StoreFieldIterator::iter_unkeyed`)
+deriving DecidableEq, Repr
+
 structure Eff where
   chain : Chain
-  iter : Bool
+  kind : RKind
   imm : Bool
   woken : Bool
 deriving Repr
@@ -430,19 +464,65 @@ def setWoken (effs : List Eff) (e : Nat) (b : Bool) : List Eff :=
   | some x => effs.set e { x with woken := b }
   | none => effs
 
-/-- one run of reader `e`: clear sources, (keyed iteration: `update_keys`), track, read, log -/
+/-- `track()` of the accessor at the end of `c`, then its untracked read -/
+def trackAndRead (st : St) (e : Nat) (c : Chain) : St × Seen :=
+  let r := walk st c
+  let st' := { r.1 with subs := r.2.trackList.foldl (fun m t => subscribe m e t) r.1.subs }
+  (st', r.2.read st'.val)
+
+/-- the first prefix of `c` that addresses an `Option` field (its length); the harness knows it from the types -/
+def optSplit (st : St) (c : Chain) : Option Nat :=
+  (List.range (c.length + 1)).find? fun n =>
+    match (walk st (c.take n)).2.read st.val with
+    | .val (.node .opt _) => true
+    | _ => false
+
+def readItems (e : Nat) (c : Chain) (mk : Nat → Acc) : List Nat → St × Seen → St × Seen
+  | [], acc => acc
+  | k :: rest, (st, seen) =>
+    let r := trackAndRead st e (c ++ [mk k])
+    readItems e c mk rest (r.1, match seen, r.2 with
+      | .val v, .val _ => .val v
+      | .val _, bad => bad
+      | bad, _ => bad)
+
+/-- what one run of reader `x` (already unsubscribed) tracks and sees -/
+def runKind (st : St) (e : Nat) (x : Eff) : St × Seen :=
+  match x.kind with
+  | .plain => trackAndRead st e x.chain
+  | .omap =>
+    match optSplit st x.chain with
+    | none => trackAndRead st e x.chain
+    | some n =>
+      -- `self.try_read()` on the option field …
+      let r := trackAndRead st e (x.chain.take n)
+      match r.2 with
+      | .val (.node _ (_ :: _)) => trackAndRead r.1 e x.chain   -- … `Some`: the closure reads the rest
+      | .val _ => (r.1, .absent)                                -- … `None`
+      | bad => (r.1, bad)
+  | .iterK =>
+    -- `into_iter`: `update_keys`, `track_field`, then every item is read through its `AtKeyed`
+    let r0 := walk st x.chain
+    let st1 := updateKeys r0.1 r0.2.tpath r0.2.vpos
+    let r := trackAndRead st1 e x.chain
+    readItems e x.chain Acc.key (latestKeys r.1.val (walk r.1 x.chain).2.vpos) r
+  | .iterU =>
+    -- `iter_unkeyed`: tracks `this` and `children` of the field itself only, reads the length,
+    -- then every element is read through its `AtIndex`
+    let r := walk st x.chain
+    let st1 := { r.1 with subs := [T r.2.tpath, C r.2.tpath].foldl (fun m t => subscribe m e t) r.1.subs }
+    let seen := r.2.read st1.val
+    let len := match seen with | .val v => v.items.length | _ => 0
+    readItems e x.chain Acc.idx (List.range len) (st1, seen)
+
+/-- one run of reader `e`: clear sources, track and read according to its kind, log -/
 def runEff (st : St) (e : Nat) : St :=
   match st.effs[e]? with
   | none => st
   | some x =>
-    let st1 := { st with subs := unsubscribeAll st.subs e }
-    let r0 := walk st1 x.chain
-    let st2 := if x.iter then updateKeys r0.1 r0.2.tpath r0.2.vpos else r0.1
-    let r := walk st2 x.chain
-    let st3 := { r.1 with subs := r.2.trackList.foldl (fun m t => subscribe m e t) r.1.subs }
-    let seen := r.2.read st3.val
-    { st3 with log := st3.log ++ [(e, seen)],
-               panicked := st3.panicked || (match seen with | .panic => true | _ => false) }
+    let r := runKind { st with subs := unsubscribeAll st.subs e } e x
+    { r.1 with log := r.1.log ++ [(e, r.2)],
+               panicked := r.1.panicked || (match r.2 with | .panic => true | _ => false) }
 
 /-- `mark_dirty` of one subscriber -/
 def markDirty (st : St) (e : Nat) : St :=
@@ -460,7 +540,9 @@ def notifyAll (st : St) (ts : List Trig) : St := ts.foldl notifyTrig st
 /-! ### operations -/
 
 inductive Op
-  | reader (c : Chain) (iter imm : Bool)
+  /-- `pre`: the accessor after this many steps is converted to a `Field` / `ArcField` when the reader is
+  created (`.into()` evaluates `path()` there, which creates key tables on the way) -/
+  | reader (c : Chain) (kind : RKind) (imm : Bool) (pre : Option Nat)
   | set (c : Chain) (v : Val)
   | patch (c : Chain) (v : Val)
   | kpush (c : Chain) (v : Val)
@@ -517,8 +599,8 @@ def patchVia (st : St) (c : Chain) (new : Val) : St × Wrote :=
       match (if w.oob then none else st.val.get pos) with
       | none => ({ st with panicked := true }, .panic)
       | some old =>
-        let pr := patchVal old new w.tpath
-        let st := { st with val := st.val.set pos pr.1 }
+        let pr := patchVal old.untop new.untop w.tpath
+        let st := { st with val := st.val.set pos (old.retop pr.1) }
         let st := pr.2.foldl (fun s p => notifyAll s (triggersForPath p)) st
         (notifyAll st w.un, .done)
 
@@ -539,9 +621,12 @@ def idleGo (st : St) : List Nat → St
 def stepOp (st : St) (op : Op) : St × Wrote :=
   let st := { st with log := [] }
   match op with
-  | .reader c iter imm =>
+  | .reader c kind imm pre =>
     let e := st.effs.length
-    let st := { st with effs := st.effs ++ [{ chain := c, iter := iter, imm := imm, woken := !imm }] }
+    let st := match pre with
+      | some n => (walk st (c.take n)).1
+      | none => st
+    let st := { st with effs := st.effs ++ [{ chain := c, kind := kind, imm := imm, woken := !imm }] }
     (if imm then runEff st e else st, .done)
   | .set c v => writeVia st c (fun _ => v)
   | .patch c v => patchVia st c v
@@ -583,6 +668,7 @@ mutual
 /-- the fields that differ between two values, as accessor chains (what `patch` ought to notify) -/
 def diffVal : Val → Val → Chain → List Chain
   | .leaf a, .leaf b, c => if a = b then [] else [c]
+  | .node .atom xs, .node _ ys, c => if Val.beqList xs ys then [] else [c]
   | .node t xs, .node _ ys, c =>
     if xs.isEmpty && ys.isEmpty then []
     else if xs.isEmpty || ys.isEmpty then [c]
